@@ -736,6 +736,44 @@ def incremental(ctx: Ctx):
         ctx.ob("C03.d", f"{cname}._step:stepwise-reward", ok, sl.where, why, construct=f"{cname}._step:stepwise-reward")
 
 
+def mcp_covered_indicator(ctx: Ctx):
+    """C03.f MCP: the reward weighs each item by the indicator `occurrence count > 0`, the count being a scatter-add of +1 per
+    (chosen set, member item) pair into a zero table with one extra leading column for the padding id 0, which is dropped."""
+    env = EnvA(ctx.repo, T.ALL_ENVS["MCPEnv"], "MCPEnv")
+    sl = env.slot("_get_reward")
+    ctx.fn(sl.fi)
+    cmps = [(n, nf.cmpnf(n)) for n in vg.walk(sl.fr.ret) if nf.cmpnf(n) is not None]
+    ok, why = False, f"expected exactly one comparison (covered = count > 0) in the reward, found {len(cmps)}"
+    if len(cmps) == 1:
+        P, op = cmps[0][1]
+        pos, neg = P.side_atoms(True), P.side_atoms(False)
+        why = f"indicator {P.show(2)} {op}"
+        # the count takes the values 0, 1, 2, ...: `count > t` with 0 <= t < 1, `count >= t` with 0 < t <= 1 and `count != 0` all say `covered`
+        t = -P.const_term()
+        sep = (op == ">0" and 0 <= t < 1) or (op == ">=0" and 0 < t <= 1) or (op == "!=0" and t == 0)
+        unit = len(pos) == 1 and not neg and [c for m, c in P.terms.items() if m][0] == 1
+        if sep and unit:
+            a = nf.strip(pos[0])
+            dropped = False
+            if a.op == "sub" and isinstance(a.args[1], vg.S) and a.args[1].op == "tuple" and len(a.args[1].args) == 2:
+                r, c = a.args[1].args
+                dropped = (r.op == "slice" and all(vg.is_none(x) for x in r.args)
+                           and c.op == "slice" and vg.is_const(c.args[0], 1) and vg.is_none(c.args[1]) and vg.is_none(c.args[2]))
+                a = nf.strip(a.args[0])
+            st = a if a.op == "store" else None
+            inc = None
+            if st is not None:
+                inc = nf.poly(st.args[2]) - nf.poly(vg.mk("sub", st.args[0], st.args[1]))
+            zero = st is not None and nf._fn(nf.strip(st.args[0])) in ("torch.zeros", "torch.zeros_like")
+            okc = inc is not None and inc.is_const() and inc.const_term() > 0
+            ok = dropped and zero and okc and {"chosen", "orig_membership"} <= vg.cells_of(a)
+            why = (f"covered = (count[:, 1:] {op[:-1]} {t}) separates 0 from 1, 2, ...; padding column dropped {dropped}, zero-initialised {zero}, "
+                   f"+{inc.show(1) if inc is not None else '?'} per (chosen set, item) pair")
+        else:
+            why += " is not `count > 0`"
+    ctx.ob("C03.f", "MCPEnv._get_reward:covered-indicator", ok, sl.where, why, construct="MCPEnv._get_reward:covered-indicator")
+
+
 def flp_min_axis(ctx: Ctx):
     """C03.e FLP: `min over the chosen facilities` is a reduction over axis 1 of a [B, k, n] tensor.  gather_by_index drops the
     gathered axis when exactly one index is gathered (k = 1), so the operand's rank must be fixed explicitly (view / reshape to
@@ -842,6 +880,7 @@ def run(ctx: Ctx):
                 check_terms(ctx, env, sl, sel, val, terms)
     incremental(ctx)
     flp_min_axis(ctx)
+    mcp_covered_indicator(ctx)
 
 
 def run_thorough(ctx: Ctx):
